@@ -1,7 +1,48 @@
 //@include prelude/header.rs
-// Unit constructors: the INITIAL STATE.  FixtureDatabase::new / Default::default (src/fixtures/mod.rs) and Backend::new
-// (src/providers/mod.rs) under contract, and the lemmas "the initial state satisfies every invariant the other units
-// assume of their input state" (base case of the inductions of units history / handlers_main).
+// Unit constructors: the INITIAL STATE (base case of the inductions of units history / handlers_main).
+//   L1  src/fixtures/mod.rs   FixtureDatabase::new        one ensures clause per field of the real struct (all 18, //@dbstruct_arc):
+//                                                         every map empty, version 0, no workspace root, .. = db_fresh(r)
+//                             <FixtureDatabase as Default>::default   db_fresh(r)  (real `impl Default for` header, real body)
+//       src/providers/mod.rs  Backend::new                the REAL struct (//@item, 7 fields, real std Arc; tokio locks = models
+//                                                         prelude/ctor_tokio.rs): client / fixture_db stored AS GIVEN, no roots, no scan
+//                                                         task, EMPTY uri_cache, default Config  = backend_new_post(r, client, fixture_db)
+//                                                         NOTE: Backend::new does not create the database, it TAKES it; who creates it:
+//       src/main.rs           start_lsp_server            `Arc::new(FixtureDatabase::new())` .. `LspService::new(|client| Backend::new(
+//                                                         client, fixture_db.clone()))` .. `serve(service)`: the obligation is the
+//                                                         PRECONDITION of the serve stand-in: server_initial(service.backend) (fresh
+//                                                         Backend around a fresh database)
+//       src/providers/mod.rs  Backend::format_fixture_documentation   r@ == op_fixture_doc(dv(fixture), root): from-line, signature block
+//                                                         (name, return type iff present), rule + docstring iff present -- structure
+//                                                         PROVED, the five string builders ASSUMED (@wrapexpr D1..D5, prelude/ctor_doc.rs)
+//   L2  prelude/ctor_l2.rs, ctor_backend_l2.rs, ctor_doc.rs: lemma_new_satisfies_<inv> for w1, wf_names, mirror_strong / uses_filed /
+//       byfix_wf / ne4 (= inv of unit history), li_cache_wf, canon_cache_wf, ast_cache_wf, avail_cache_ok, cycle_cache_ok;
+//       lemma_C06_new_is_history_base (idx == idx_empty()), lemma_C07_new_has_no_collision, lemma_C06_new_analyze_pre,
+//       lemma_C19_new_backend_cache_inv, lemma_C19_initial_srv_inv (+ _iff_env), lemma_C06_initial_server_is_history_base.
+//       env_ok (hence db_inv / srv_inv) is NOT established by the constructor: it is a hypothesis tying the uninterpreted
+//       env_third_party / env_is_plugin to the environment fields; lemma_new_env_ok_iff says exactly what it says of the fresh
+//       database (env_is_fresh()), canary_new_satisfies_env_ok FAILS, lemma_env_ok_refuted_by_a_plugin_file.
+//       Companion unit constructors_refs (unique_at_line, mirror, names_wf, scanned_ok, wf_names of mismatch_spec.rs): its
+//       preludes cannot live in one crate with this unit's (duplicate assume_specification[Option::is_some_and]).
+//   T3/T6 for the database constructor: prelude/ctor_strip.rs (inside `mod fixtures` ONLY, `Arc::new` / `std::sync::Mutex::new`
+//       are verified identities and `std::sync::atomic::AtomicU64` is the prelude shim: the stripping //@dbstruct_arc applies to
+//       the field TYPES, applied to the field INITIALISERS; the function text is unchanged).
+//   ASSUMED: CS1 DashMap::new() is empty, CS1b PathBuf::new() is empty (mutants only), CS2 derive(Default) on Config = four empty
+//       vectors (written out, verified against cfg_is_default), CS3/CS4 LspService::new / Server::serve (prelude/ctor_server.rs),
+//       D1..D5 (prelude/ctor_doc.rs); models (verified definitions): tokio RwLock / Mutex = protected value, AtomicU64::new.
+// MUTATION RECORD (2026-09-27, scratch copy of /repo/src, VERIF_REPO):
+//   m1  definitions_version: AtomicU64::new(1)                   -> new FAILS `r.definitions_version.v == 0`, db_fresh(r); canary_exec_new_version_is_one stops failing
+//   m2  definitions built with a pre-inserted ("", []) entry     -> new FAILS `r.definitions.m() == Map::empty()`, db_fresh(r)
+//   m2b workspace_root: Mutex::new(Some(PathBuf::new()))         -> new FAILS `r.workspace_root is None`, db_fresh(r)
+//   m2c plugin_fixture_files built with a pre-inserted entry     -> new FAILS `r.plugin_fixture_files.m() == Map::empty()`, db_fresh(r)
+//   m3a Backend::new ignores its argument: fixture_db: Arc::new(FixtureDatabase::new())  -> Backend::new FAILS `r.fixture_db == fixture_db`, backend_new_post
+//   m3b Backend::new: workspace_root initialised to Some(..)     -> Backend::new FAILS `r.workspace_root.v is None`, backend_new_post
+//   m3c main.rs: the closure builds its Backend around a SECOND database  -> start_lsp_server FAILS the closure's ensures backend_new_post(b, client, fixture_db)
+//   m3d main.rs: fixture_db.invalidate_cycle_cache() before serving -> UNDECIDED (the function is not part of this unit's database)
+//   m4  Default::default = new() with the version replaced by 5  -> default FAILS db_fresh(r); canary_exec_default_is_not_new stops failing
+//   m4b Default::default = its own struct literal with version 7 -> default FAILS db_fresh(r)
+//   m6  doc: docstring block moved in front of the signature     -> format_fixture_documentation FAILS (content@ =~= op_fixture_doc(..))
+//   m7  doc: the rule "\n\n---\n\n" dropped                       -> format_fixture_documentation FAILS
+//   m8  Backend::new: uri_cache pre-filled with a parsed URI     -> UNDECIDED (tool limit: str::parse / fluent_uri types have no specification)
 use rustpython_parser::{parse, Mode};
 use rustpython_parser::ast::{Stmt, Expr, Keyword, Identifier, Constant, ExceptHandler, ExprCall, Alias, Arguments, ArgWithDefault};
 use rustpython_parser::text_size::TextRange;
